@@ -297,7 +297,8 @@ def lift(p) -> object:
     if c is HasLengthPredicate:
         return ("leaf", str(LEAF_HAS_LENGTH), str(intern(p.length)))
     if c is RegexPredicate:
-        return ("leaf", str(LEAF_REGEX), str(intern(p.regex.pattern)), str(intern(p.regex.flags)))
+        # what == sees: the dataclass fields as they were passed in (a str or a compiled pattern; the flags argument)
+        return ("leaf", str(LEAF_REGEX), str(intern(p.pattern)), str(intern(p.flags)))
     if c is LazyPredicate:
         return ("leaf", str(LEAF_LAZY), str(intern(p.ref)))
     if c is ThisPredicate:
